@@ -618,6 +618,33 @@ func checkC11(c *Ctx) {
 		}
 		w.Seen(uint64(i))
 	})
+	// (c'') the whole interesting domain of star (width/precision) operands: accepted, never a panic
+	so := starOperands()
+	c.Section("C11/star-operands", map[string]interface{}{"operands": len(so), "formats": len(starFormats)}, len(so)*len(so), func(i int, w *Worker) {
+		a, b := so[i/len(so)], so[i%len(so)]
+		for _, f := range starFormats {
+			args := []interface{}{a, b, 5, "tail"}
+			if strings.Count(f, "*") == 1 {
+				args = []interface{}{a, 5, "tail"}
+			}
+			w.Eval()
+			var out redact.RedactableString
+			if pv, pan := recoverTo(func() {
+				out = redact.Sprintf(f, args...)
+				var sb redact.StringBuilder
+				sb.SafeString("kept ")
+				sb.Printf(f, args...)
+				if !strings.HasPrefix(string(sb.RedactableString()), "kept ") {
+					panic("earlier output lost: " + string(sb.RedactableString()))
+				}
+			}); pan {
+				w.Fail("star-operands", map[string]interface{}{"F": f, "A": fmt.Sprintf("%T(%v)", a, a), "B": fmt.Sprintf("%T(%v)", b, b)}, fmt.Sprintf("Sprintf(%q, %T(%v), %T(%v), ...) panics: %v", f, a, a, b, b, pv))
+			} else if !strings.HasSuffix(string(Strip([]byte(out))), "tail") {
+				w.Fail("star-operands", map[string]interface{}{"F": f, "A": fmt.Sprintf("%T(%v)", a, a), "B": fmt.Sprintf("%T(%v)", b, b)}, fmt.Sprintf("Sprintf(%q, %T(%v), %T(%v), ...) = %q loses the rest of the line", f, a, a, b, b, out))
+			}
+		}
+		w.Seen(uint64(i))
+	})
 	// (d) JoinTo
 	c.Section("C11/joinTo", map[string]interface{}{"operands": len(joinVals), "writers": "StringBuilder, Sprintfn printer, SafeFormat printer", "delimiters": len(joinDelims)}, len(joinVals)*3*len(joinDelims), func(i int, w *Worker) {
 		di := i % len(joinDelims)
